@@ -14,3 +14,5 @@ import RenetVerif.Lemmas.SrcEquiv.NcSequence
 import RenetVerif.Lemmas.SrcEquiv.SendUnrel
 import RenetVerif.Lemmas.SrcEquiv.RecvUnrel
 import RenetVerif.Lemmas.SrcEquiv.SendRel
+import RenetVerif.Lemmas.SrcEquiv.RecvRel
+import RenetVerif.Lemmas.SrcEquiv.NcPacket
